@@ -120,7 +120,7 @@ class Printer:
 
     def s_assign(self, n, ind, prefix):
         target, e = n[1], n[2]
-        head = prefix + self.target(target) + " = "
+        head = prefix + ("let " if target[0] == "var" and len(target) > 2 and target[2] else "") + self.target(target) + " = "
         if self.is_blocky(e) or (e[0] == "fn" and self.flip("fn_block", 0.4)):
             return self.stmt(e, ind, head)
         if e[0] == "map" and e[1] and self.flip("map_block", 0.4) and all(self.mapkey(k)[:1] not in "'@" and self.is_simple(v) and v[0] not in ("fn", "if", "map") for k, v in e[1]):
@@ -440,7 +440,7 @@ class Printer:
         finally:
             self.no_break -= 1
     def x_assign(self, n, stmt):
-        return self.target(n[1]) + " = " + self.expr(n[2], 0), 0
+        return ("let " if n[1][0] == "var" and len(n[1]) > 2 and n[1][2] else "") + self.target(n[1]) + " = " + self.expr(n[2], 0), 0
     def x_opassign(self, n, stmt):
         return self.target(n[2]) + " " + n[1] + "= " + self.expr(n[3], 0), 0
     def x_break(self, n, stmt):
